@@ -44,8 +44,9 @@ func cmdCorr(repo string, seed uint64, n int) int {
 		tid := rng.Range(1, 16)
 		objs := map[int]*object{}
 		var obs []string
+		km := shared.keys(corrSlot(id))
 		for _, o := range prog {
-			r := execOp(o, objs, shared, cryptKey)
+			r := execOp(o, objs, shared, km)
 			target := o.d
 			switch o.code {
 			case 'C', 'c', 'X', 'B', 'N', 'Y', 'F', 'A':
@@ -238,10 +239,15 @@ func runRound(r *round, c *corpus, shared *world) roundOutcome {
 		final string
 	}
 	refs := make([]ref, g)
+	var seqChanged []string
 	for t := 0; t < g; t++ {
 		priv := c.privateWorld(inputsRead(r.progs[t]))
-		res, fin, _ := runProgram(r.progs[t], priv, goroutineKey(t), nil)
+		res, fin, _ := runProgram(r.progs[t], priv, priv.keys(t), nil)
 		refs[t] = ref{res, fin}
+		// run alone, the library must not have written any byte of the caller's key / IV / KID table either
+		if priv.keytabChanged(true) {
+			seqChanged = append(seqChanged, fmt.Sprintf("%d:-:run alone on private copies, the program changed the caller's %s (a []byte argument with spare capacity was written behind its length, or in place)", t, c.inputName(len(c.info))))
+		}
 	}
 	got := make([]ref, g)
 	var wg sync.WaitGroup
@@ -255,7 +261,7 @@ func runRound(r *round, c *corpus, shared *world) roundOutcome {
 			for i := 0; i < r.skew[t]; i++ {
 				runtime.Gosched()
 			}
-			res, fin, _ := runProgram(r.progs[t], shared, goroutineKey(t), func(int) {
+			res, fin, _ := runProgram(r.progs[t], shared, shared.keys(t), func(int) {
 				for i := rng.Intn(4); i > 0; i-- {
 					runtime.Gosched()
 				}
@@ -266,6 +272,7 @@ func runRound(r *round, c *corpus, shared *world) roundOutcome {
 	close(start)
 	wg.Wait()
 	var out roundOutcome
+	out.refdiffs = append(out.refdiffs, seqChanged...)
 	for t := 0; t < g; t++ {
 		// independent reference (AC-3 channel tables): in the sequential or in the concurrent run
 		for which, rs := range [][]opResult{refs[t].res, got[t].res} {
@@ -285,7 +292,7 @@ func runRound(r *round, c *corpus, shared *world) roundOutcome {
 		// history: the same program prefix run alone on fresh copies of the same inputs with the same key gave
 		// something else earlier in this process
 		for i := 0; i < len(refs[t].res) && i < 4; i++ {
-			key := fmt.Sprintf("%d/%s", t%3, progString(r.progs[t][:i+1]))
+			key := fmt.Sprintf("%s/%s", keyClass(t), progString(r.progs[t][:i+1]))
 			x := refs[t].res[i]
 			x.bad = ""
 			if old, ok := history[key]; ok {
@@ -328,6 +335,7 @@ func cmdWorker(repo string, seed uint64, from, n, known, stride int) int {
 	for k, in := range c.info {
 		fmt.Printf("INPUTNAME\t%d\t%s\n", k, in.name)
 	}
+	fmt.Printf("INPUTNAME\t%d\t%s\n", len(c.info), c.inputName(len(c.info)))
 	fmt.Printf("BOXTYPES\t%d\n", len(c.boxTypes))
 	for k := from; k < n+known; k += stride {
 		r := genRound(seed, k, n, c)
